@@ -108,6 +108,12 @@ def errorReply (s : St) (status : Nat) : St :=
              keepalive := .mustClose, state := .fullReplySent,
              out := .reply status true :: s.out }
 
+/-- the head / trailer parser refuses: error reply (`transmit_error_response_*`) or, without a
+    reply, `connection_close_error` -/
+def refuseWith (s : St) : Option Nat → St
+  | some status => errorReply s status
+  | none => { s with state := .closed, buf := [], out := .close :: s.out }
+
 /-- `connection_reset (c, reuse)` -/
 def connReset (s : St) (reuse : Bool) : St :=
   if reuse then
@@ -145,6 +151,7 @@ def idleStep [P : HeadParser] (lvl : Int) (app : App) (s : St) : Option St :=
     match P.head s.buf with
     | .incomplete => none
     | .bad => some { s with state := .outOfDomain, buf := [] }
+    | .refuse x => some (refuseWith s x)
     | .ok h rest => some { s with state := .headersReceived, head := h, buf := rest }
   | .headersReceived =>
     match decideBody lvl s.head.http11 s.head.fields with
@@ -176,6 +183,7 @@ def idleStep [P : HeadParser] (lvl : Int) (app : App) (s : St) : Option St :=
     match P.trailers s.buf with
     | .incomplete => none
     | .bad => some { s with state := .outOfDomain, buf := [] }
+    | .refuse x => some (refuseWith s x)
     | .ok _ rest => some { s with state := .footersReceived, buf := rest }
   | .footersReceived => some { s with state := .fullReqReceived }
   | .fullReqReceived =>
